@@ -29,7 +29,8 @@ import (
 type c18CRound struct {
 	Workers [][]c18Op `json:"workers"` // per goroutine: q operations only
 	Clear   bool      `json:"clear"`   // a further goroutine calls ClearExpiredCache during the burst
-	AdvS    int64     `json:"adv_s"`   // virtual seconds that pass after the burst
+	AdvS    int64     `json:"adv_s"`   // virtual seconds ...
+	AdvMs   int64     `json:"adv_ms"`  // ... plus milliseconds that pass after the burst
 }
 
 type c18CCase struct {
@@ -81,7 +82,7 @@ func c18CRun(c c18CCase) (key, msg string, st map[string]bool) {
 		return "harness", err.Error(), st
 	}
 	var allMeas []c18CEvent
-	var advBefore []int64 // advBefore[r] = virtual time at the start of round r
+	var advBefore []int64 // advBefore[r] = virtual time (ms) at the start of round r
 	vnow := int64(0)
 	for ri, rd := range c.Rounds {
 		advBefore = append(advBefore, vnow)
@@ -164,7 +165,7 @@ func c18CRun(c c18CCase) (key, msg string, st map[string]bool) {
 						continue // that probe started after the answer was given
 					}
 					same = true
-					age := time.Duration(advBefore[a.round]-advBefore[m.round]) * time.Second
+					age := time.Duration(advBefore[a.round]-advBefore[m.round]) * time.Millisecond
 					if age < s.life[ci] {
 						ok = true
 						if m.round < a.round {
@@ -200,9 +201,10 @@ func c18CRun(c c18CCase) (key, msg string, st map[string]bool) {
 			}
 		}
 		// time passes
-		vnow += rd.AdvS
+		adv := time.Duration(rd.AdvS)*time.Second + time.Duration(rd.AdvMs)*time.Millisecond
+		vnow += int64(adv / time.Millisecond)
 		for ci := 0; ci < 2; ci++ {
-			if err := c18Shift(s.cacheOf(ci), time.Duration(rd.AdvS)*time.Second); err != nil {
+			if err := c18Shift(s.cacheOf(ci), adv); err != nil {
 				return "harness", err.Error(), st
 			}
 		}
@@ -265,7 +267,8 @@ func c18CGen(rt *rapid.T) c18CCase {
 	nr := rapid.IntRange(1, 4).Draw(rt, "rounds")
 	c := c18CCase{Conf: cf}
 	for r := 0; r < nr; r++ {
-		rd := c18CRound{Clear: rapid.Bool().Draw(rt, "clear"), AdvS: rapid.SampledFrom(deltas).Draw(rt, "adv")}
+		d := rapid.SampledFrom(deltas).Draw(rt, "adv_ms")
+		rd := c18CRound{Clear: rapid.Bool().Draw(rt, "clear"), AdvS: d / 1000, AdvMs: d % 1000}
 		nw := rapid.IntRange(2, 6).Draw(rt, "workers")
 		for w := 0; w < nw; w++ {
 			n := rapid.IntRange(1, 12).Draw(rt, "nops")
